@@ -139,6 +139,17 @@ def observers_diff(e1, e2):
             b2 = open(os.path.join(d2, r['path']), 'rb').read()
             if b1 != b2:
                 return 'dumped file %s differs' % r['path']
+    import zipfile
+    for z1, z2 in zip(e1.zips, e2.zips):
+        try:
+            a, b = zipfile.ZipFile(z1), zipfile.ZipFile(z2)
+            if sorted(a.namelist()) != sorted(b.namelist()):
+                return 'zip members differ: %r vs %r' % (a.namelist(), b.namelist())
+            for n in a.namelist():
+                if a.read(n) != b.read(n):
+                    return 'zip member %s differs' % n
+        except Exception as e:
+            return 'zip unreadable: %s' % e
     for k in e1.streams:
         if k in e2.streams and e1.streams[k].getvalue() != e2.streams[k].getvalue():
             return 'stream %s text differs' % k
